@@ -1,4 +1,5 @@
 import MirVerif.Model.PPMacroUnit
+import MirVerif.Lemmas.PPNumber
 /-! line-protocol driver for property C09
 
   mirdrv_c09 pp c11            specification: C11 expander, C11 `#if` evaluator
@@ -146,6 +147,13 @@ partial def strLoop (h : IO.FS.Stream) : IO Unit := do
   IO.println s!"R {hexOfChars (destringifyC s)}"
   strLoop h
 
+/-- one hex-coded character sequence per line → `ppNumberLen` (length of the pp-number at its start) -/
+partial def ppnumLoop (h : IO.FS.Stream) : IO Unit := do
+  let line ← h.getLine
+  if line.isEmpty then return ()
+  IO.println (ppNumberLen (unhex line.trimAscii.toString).toList)
+  ppnumLoop h
+
 def main (args : List String) : IO Unit := do
   let h ← IO.getStdin
   match args with
@@ -157,5 +165,6 @@ def main (args : List String) : IO Unit := do
       s!"{showRes (c11Eval e)} {showRes (c2mEval e)} {if hasZeroDiv e then "z" else "-"}")
   | ["exprmask", m] => exprLoop h (fun e => showRes (c2mEvalG (maskToFixes m.toNat!) e))
   | ["strings"] => strLoop h
+  | ["ppnum"] => ppnumLoop h
   | ["applied"] => IO.println (fixesToMask appliedFixes)
   | _ => IO.eprintln "usage: mirdrv_c09 pp c11|c2m [mask] | expr | exprmask <mask> | applied"
